@@ -18,8 +18,8 @@ type ExprGen struct {
 	// Callbacks enables calls of registered functions/filters/tests.
 	Callbacks bool
 	PatVar    string // a string variable holding a valid pattern ("" = patterns are literals only)
-	noCB      int // >0 while generating the right operand of and/or
-	inInterp  int // >0 while generating an interpolated part (no nested double-quoted strings)
+	noCB      int    // >0 while generating the right operand of and/or
+	inInterp  int    // >0 while generating an interpolated part (no nested double-quoted strings)
 }
 
 // Type of a generated expression.
@@ -351,7 +351,7 @@ func StdContext(g *ExprGen) map[string]interface{} {
 	g.HashKeys = map[string]string{"h1": "k"}
 	g.PatVar = "pat"
 	return map[string]interface{}{
-		"pat": "^a",
+		"pat":  "^a",
 		"None": 9, "True": "tv", "False": true, "Null": "nn",
 		"not1": 4, "in2": uint8(2), "or3": "b", "is4": "Hello", "and5": true,
 		"n1": 3, "n2": 0.5, "n3": int64(10), "n4": float32(7),
